@@ -19,12 +19,12 @@ CLAIMED = {
    text="A non-interference argument for repository code: each request allocates a fresh holder with an empty placeholder and enters the middleware/handler chain with the context carrying it; every one of the uses of *batchData in the package is an allocation, the value of context.WithValue, the comma-ok read back from the context, a field access or a nil test — it is never stored, sent, captured by a goroutine or returned, the key type is constructed only in context.go and no package-level variable holds request state; the placeholder field is touched only by its three accessors, a failed item clears it on every error path, and no goroutine is spawned between HandleRequest and the handlers. User handlers that leak their own context are outside.",
    ref="§4 C15"),
  "C20": dict(level="other",
-   technique="static analysis: effect analysis — inventory of every package-level variable of the codec packages with all its writers, who-may-call on Register*, reachability of global writes from the encode/decode entry points, capture analysis of the cached plan closures, per-call coder construction and Clear completeness",
-   text="A non-interference argument for every schedule and history: each of the package-level variables of ttlv, kmip and payloads is written only by init/Register* functions (or is one of the two sync.Map plan caches used only through Load/Store), Register* is called only from init, none of the functions reachable from an encode or decode entry point writes shared state other than the two cache stores, the cached per-type plan closures capture no coder, version state, writer or reader and never store to a captured variable, coders and their version state are created per call, and Clear resets the version and every writer field encoding modifies while the binary buffer only grows by appending. With no shared written location there is neither a data race nor a dependence on call history. Byte-equality across processes is implied, not measured.",
+   technique="static analysis: effect analysis — inventory of every package-level variable of the codec packages with all its writers, who-may-call on Register*, reachability of global writes from the encode/decode entry points, capture analysis of the cached plan closures, publication-completeness of every plan-cache store (no write to a captured cell reachable after the Store), per-call coder construction and Clear completeness",
+   text="A non-interference argument for every schedule and history: each of the package-level variables of ttlv, kmip and payloads is written only by init/Register* functions (or is one of the two sync.Map plan caches used only through Load/Store), Register* is called only from init, none of the functions reachable from an encode or decode entry point writes shared state other than the two cache stores, the cached per-type plan closures capture no coder, version state, writer or reader and never store to a captured variable, a plan is stored in the cache only when nothing it captures is written afterwards (so a goroutine that finds the entry during a concurrent first use sees the complete plan), coders and their version state are created per call, and Clear resets the version and every writer field encoding modifies while the binary buffer only grows by appending. With no shared written location there is neither a data race nor a dependence on call history. Byte-equality across processes is implied, not measured.",
    ref="§4 C20"),
  "C14": dict(level="other",
-   technique="static analysis: nil-dominance dataflow over every dereference of an optional pointer in the object accessors; path-wise extraction and three-way comparison of the key-format tables (decoder destination, accessor source, builder field); recognition of the 1.3 version switch and of the curve tables",
-   text="Decides clause (b) for repository code and the table-agreement part of clause (a): in every accessor each dereference of a pointer loaded from an optional part of a decoded object is dominated by a nil test on the same access path (four nil dereferences on metadata-only or empty key blocks were repaired and are guarded); for each of the 13 key formats the KeyMaterial field the decoder fills is the one each accessor reads and the one each register builder populates with that format constant, on every path of the builders; the builders switch to the unified EC representation exactly at CompareVersions(version, V1_3) >= 0; builder and accessor curve tables are inverse with the right bit lengths. Mathematical equality of the extracted key (big-integer bytes, DER, curve arithmetic) is value-level and not decided; the planned stdlib-hand-over obligation was dropped as a false alarm (crypto/rsa tolerates nil primes).",
+   technique="static analysis: nil-dominance dataflow over every dereference of an optional pointer in the object accessors; path-wise extraction and three-way comparison of the key-format tables (decoder destination, accessor source, builder field); recognition of the 1.3 version switch and of the curve tables; dominating size/sign test in front of every math/big call that panics on the magnitude of its operand",
+   text="Decides clause (b) for repository code and the table-agreement part of clause (a): in every accessor each dereference of a pointer loaded from an optional part of a decoded object is dominated by a nil test on the same access path (four nil dereferences on metadata-only or empty key blocks were repaired and are guarded); for each of the 13 key formats the KeyMaterial field the decoder fills is the one each accessor reads and the one each register builder populates with that format constant, on every path of the builders; the builders switch to the unified EC representation exactly at CompareVersions(version, V1_3) >= 0; builder and accessor curve tables are inverse with the right bit lengths; no accessor calls a magnitude-sensitive math/big routine (FillBytes, Div, Mod, ...) without a dominating BitLen/Cmp/Sign test. Mathematical equality of the extracted key (big-integer bytes, DER, curve arithmetic) is value-level and not decided; the planned stdlib-hand-over obligation was dropped as a false alarm (crypto/rsa tolerates nil primes).",
    ref="§4 C14"),
  "C12": dict(level="other",
    technique="static analysis: forbidden-construct rule on unchecked type assertions over server-chosen values in package kmipclient (discharged only through the attribute type table), dominating-length-check rule for batch item indexing, dominance of the Err()==nil edge over success returns, presence of the operation comparison before items are returned",
